@@ -1025,6 +1025,12 @@ def m_builder_build(it, argv, text):
 
 @emodel('channel')
 def m_channel(it, argv, text):
+    env = env_of(it)
+    # a new channel: the model keeps one channel per run
+    env.receiver_dropped = False
+    env.queue = []
+    env.idle_empties = 0
+    env.stuttered = False
     return TupleV((OpaqueV('Sender'), OpaqueV('Receiver')))
 
 
@@ -1230,3 +1236,94 @@ def m_io_error_from(it, argv, text):
     if isinstance(a, EnumV) and a.ename == 'ErrorKind':
         return io_error(a.vname)
     return a
+
+
+@emodel('BufRead::read_line')
+def m_read_line(it, argv, text):
+    """appends bytes up to and including the next LF to the String; Err(InvalidData) if they are not UTF-8"""
+    env = env_of(it)
+    rd = it.deref_all(argv[0])
+    h = env.handles[rd.data]
+    n = env.find(h['comps'])
+    if n is None or n[1] != 'file':
+        return err(io_error('IsADirectory'))
+    if env.maybe_fail('read', comps_to_bytes(h['comps'])):
+        return err(io_error('Other'))
+    content = n[2]
+    pos = h['pos']
+    j = pos
+    while j < len(content) and not _is(it, content[j], 10):
+        j += 1
+    end = j + 1 if j < len(content) else j
+    chunk = tuple(content[pos:end])
+    h['pos'] = end
+    if not valid_utf8(it, chunk):
+        return err(io_error('InvalidData'))
+    cur = it.load(argv[1].addr)
+    it.store(argv[1].addr, StrV(cur.b + chunk))
+    return ok(end - pos)
+
+
+@emodel('Read::take')
+def m_read_take(it, argv, text):
+    rd = it.deref_all(argv[0])
+    return OpaqueV('Take', (rd, argv[1]))
+
+
+@emodel('Read::bytes')
+def m_read_bytes(it, argv, text):
+    env = env_of(it)
+    rd = it.deref_all(argv[0])
+    h = env.handles[rd.data]
+    n = env.find(h['comps'])
+    data = tuple(n[2][h['pos']:]) if n is not None and n[1] == 'file' else ()
+    h['pos'] += len(data)
+    return IterV('list', (tuple(ok(b) for b in data), 0))
+
+
+_orig_read_to_end = MODELS['Read::read_to_end']
+
+
+@emodel('Read::read_to_end', 'Read::read_to_string')
+def m_read_to_end2(it, argv, text):
+    rd = it.deref_all(argv[0])
+    if isinstance(rd, OpaqueV) and rd.kind == 'Take':
+        inner, limit = rd.data
+        env = env_of(it)
+        h = env.handles[inner.data]
+        n = env.find(h['comps'])
+        if n is None or n[1] != 'file':
+            return err(io_error('IsADirectory'))
+        if env.maybe_fail('read', comps_to_bytes(h['comps'])):
+            return err(io_error('Other'))
+        data = tuple(n[2][h['pos']:h['pos'] + limit])
+        if text.endswith('read_to_string') and not valid_utf8(it, data):
+            return err(io_error('InvalidData'))
+        h['pos'] += len(data)
+        cur = it.load(argv[1].addr)
+        it.store(argv[1].addr, StrV(cur.b + data) if isinstance(cur, StrV) else VecV(cur.e + data))
+        return ok(len(data))
+    return _orig_read_to_end(it, argv, text)
+
+
+@emodel('File::set_len')
+def m_set_len(it, argv, text):
+    env = env_of(it)
+    f = it.deref_all(argv[0])
+    h = env.handles[f.data]
+    n = env.find(h['comps'])
+    if n is None:
+        return err(io_error('NotFound'))
+    n[2] = tuple(n[2][:argv[1]]) + tuple([0] * max(0, argv[1] - len(n[2])))
+    env.log.append(('truncate', printable(comps_to_bytes(h['comps']))))
+    return ok(UNIT)
+
+
+@emodel('copy')
+def m_fs_copy(it, argv, text):
+    env = env_of(it)
+    src = env.lookup(path_arg(it, argv[0]))
+    if src is None or src[1] != 'file':
+        return err(io_error('NotFound'))
+    r = m_fs_write(it, [argv[1], VecV(tuple(src[2]))], text)
+    return r if r.idx == 1 else ok(len(src[2]))
